@@ -1,13 +1,452 @@
 /-
-Driver ops of the "Conc" family. `run` returns `none` for op names it does not own.
+Driver ops of the "Conc" family (tie T5 of C19 / C20). `run` returns `none` for op names it does not own.
+
+  op <id> conc <system> <cfg> <event> <event> …
+
+replays the step log of one execution of the rewritten emitted code (harness/vsched) on the layer-K
+transition system of <system>: every logged step must be an ENABLED transition of the model WITH THE
+SAME EFFECT (same value moved, same channel, a close observed where the model observes one, the right
+goroutine acting), and the state reached at the end must be final.  Answer:
+`model=ok steps=<transitions replayed> skipped=<prologue events validated>` or
+`model=reject at=<event index> why=<reason>`.
+
+  systems: fmap dup joinwg-chan joinwg-slice joinsel pipeline do
+  cfg    : (cfg (ocap N) (ins (CAP item…) …))            channel systems
+           (cfg (n N) (vals v…) (errs e…) (pairs (a b) …))   do   (e = 0: nil error)
+  event  : (kind g site g2 site2 object value)            all atoms, as printed by vsched.Event.String
+
+The prologue of the called function (`make`, the first `go`, `return`) and the creation of environment
+goroutines are not transitions of the LTS (it starts right after the call): `make` events are validated
+against the configuration (capacity expression!), `go` events against the expected sites.
 -/
 import GoderiveModel.U.Wire
 import Driver.State
+import GoderiveModel.K.FmapChan
+import GoderiveModel.K.Dup
+import GoderiveModel.K.JoinWG
+import GoderiveModel.K.JoinSelect
+import GoderiveModel.K.Pipeline
+import GoderiveModel.K.Do
 
 open Goderive
+open Goderive.K
 
 namespace OpsConc
 
-def run (_s : DState) (_name : String) (_args : List SExp) : Option String := none
+structure Ev where
+  kind : String
+  g : Nat
+  site : String
+  g2 : Nat
+  site2 : String
+  ch : String
+  val : Nat
+  deriving Repr
+
+def parseEv : SExp → Option Ev
+  | .list [.atom k, .atom g, .atom s, .atom g2, .atom s2, .atom ch, .atom v] => do
+    let g ← g.toNat?
+    let g2 ← g2.toNat?
+    let v ← v.toNat?
+    some { kind := k, g := g, site := s, g2 := g2, site2 := s2, ch := ch, val := v }
+  | _ => none
+
+def natList : List SExp → Option (List Nat)
+  | [] => some []
+  | .atom a :: rest => do
+    let n ← a.toNat?
+    let r ← natList rest
+    some (n :: r)
+  | _ => none
+
+structure ChanCfg where
+  ocap : Nat
+  ins : List (Nat × List Nat)
+
+def parseIns : List SExp → Option (List (Nat × List Nat))
+  | [] => some []
+  | .list (.atom c :: items) :: rest => do
+    let c ← c.toNat?
+    let it ← natList items
+    let r ← parseIns rest
+    some ((c, it) :: r)
+  | _ => none
+
+def parseChanCfg : SExp → Option ChanCfg
+  | .list [.atom "cfg", .list [.atom "ocap", .atom oc], .list (.atom "ins" :: ins)] => do
+    let oc ← oc.toNat?
+    let ins ← parseIns ins
+    some { ocap := oc, ins := ins }
+  | _ => none
+
+def parsePairs : List SExp → Option (List (Nat × Nat))
+  | [] => some []
+  | .list [.atom a, .atom b] :: rest => do
+    let a ← a.toNat?
+    let b ← b.toNat?
+    let r ← parsePairs rest
+    some ((a, b) :: r)
+  | _ => none
+
+structure DoCfg where
+  n : Nat
+  vals : List Nat
+  errs : List Nat
+  pairs : List (Nat × Nat)
+
+def parseDoCfg : SExp → Option DoCfg
+  | .list [.atom "cfg", .list [.atom "n", .atom n], .list (.atom "vals" :: vs), .list (.atom "errs" :: es),
+           .list (.atom "pairs" :: ps)] => do
+    let n ← n.toNat?
+    let vs ← natList vs
+    let es ← natList es
+    let ps ← parsePairs ps
+    if vs.length = n ∧ es.length = n then some { n := n, vals := vs, errs := es, pairs := ps } else none
+  | _ => none
+
+/-- `"in3"` with prefix `"in"` ↦ 3 -/
+def suffixNat (pre s : String) : Option Nat :=
+  if s.startsWith pre then (s.drop pre.length).toNat? else none
+
+def itemsOf (ins : List (Nat × List Nat)) (i : Nat) : List Nat :=
+  match ins[i]? with
+  | some p => p.2
+  | none => []
+
+def capOf (ins : List (Nat × List Nat)) (i : Nat) : Nat :=
+  match ins[i]? with
+  | some p => p.1
+  | none => 0
+
+/-- the user function of the fmap scenarios (harness/conc.F) -/
+def userF (x : Nat) : Nat := 3 * x + 1
+
+abbrev R := Except String
+
+def need (b : Bool) (msg : String) : R Unit := if b then pure () else throw msg
+
+/-- one model step with the effect check -/
+def doStep {σ ℓ : Type} (m : Lts σ ℓ) (effect : σ → ℓ → Option Nat) (s : σ) (l : ℓ) (obs : Option Nat) : R σ :=
+  if effect s l != obs then throw s!"effect-differs:model={effect s l}:impl={obs}"
+  else match m.step s l with
+    | some s' => pure s'
+    | none => throw "transition-not-enabled-in-model"
+
+-- result of interpreting one event: (state, true) = a transition was taken, (state, false) = a prologue event was validated
+
+def envGo (e : Ev) (ok : List String) : R Unit :=
+  need (e.kind == "go" && ok.any (fun p => e.site2.startsWith p)) s!"unexpected-go:{e.site}->{e.site2}"
+
+-- ---------------------------------------------------------------- fmap
+
+def fmapEv (c : FmapChan.Cfg) (s : FmapChan.State) (e : Ev) : R (FmapChan.State × Bool) := do
+  let m := FmapChan.lts c
+  let st (l : FmapChan.Label) (obs : Option Nat) : R (FmapChan.State × Bool) := do
+    let s' ← doStep m FmapChan.effect s l obs
+    pure (s', true)
+  match e.kind, e.ch with
+  | "make", "in" => need (e.val == c.cap) "cap-of-in"; pure (s, false)
+  | "make", "fmap.out" => need (e.val == c.cap) "make-out-capacity-is-not-cap(in)"; pure (s, false)
+  | "go", _ => envGo e ["prod0", "fmap#0", "cons0"]; pure (s, false)
+  | "send", "in" => need (e.site == "prod0" && s.inp.cap > 0) "send-in"; st .pSend (some e.val)
+  | "xfer", "in" => need (e.site == "prod0" && e.site2 == "fmap#0" && s.inp.cap == 0) "xfer-in"; st .pSend (some e.val)
+  | "close", "in" => need (e.site == "prod0") "close-in"; st .pClose none
+  | "recv", "in" => need (e.site == "fmap#0") "recv-in"; st .fRecv (some e.val)
+  | "recvc", "in" => need (e.site == "fmap#0") "recvc-in"; st .fRecv none
+  | "send", "fmap.out" => need (e.site == "fmap#0" && s.out.cap > 0) "send-out"; st .fSend (some e.val)
+  | "xfer", "fmap.out" => need (e.site == "fmap#0" && e.site2 == "cons0" && s.out.cap == 0) "xfer-out"; st .cRecv (some e.val)
+  | "recv", "fmap.out" => need (e.site == "cons0") "recv-out"; st .cRecv (some e.val)
+  | "recvc", "fmap.out" => need (e.site == "cons0") "recvc-out"; st .cRecv none
+  | "close", "fmap.out" => need (e.site == "fmap#0") "close-out"; st .fClose none
+  | _, _ => throw s!"unknown-event:{e.kind}:{e.ch}"
+
+-- ---------------------------------------------------------------- dup
+
+def dupEv (c : Dup.Cfg) (s : Dup.State) (e : Ev) : R (Dup.State × Bool) := do
+  let m := Dup.lts c
+  let st (l : Dup.Label) (obs : Option Nat) : R (Dup.State × Bool) := do
+    let s' ← doStep m Dup.effect s l obs
+    pure (s', true)
+  match e.kind, e.ch with
+  | "make", "in" => need (e.val == c.cap) "cap-of-in"; pure (s, false)
+  | "make", "dup.cc1" => need (e.val == c.cap) "make-cc1-capacity-is-not-cap(c)"; pure (s, false)
+  | "make", "dup.cc2" => need (e.val == c.cap) "make-cc2-capacity-is-not-cap(c)"; pure (s, false)
+  | "go", _ => envGo e ["prod0", "dup#0", "cons0", "cons1"]; pure (s, false)
+  | "send", "in" => need (e.site == "prod0" && s.inp.cap > 0) "send-in"; st .pSend (some e.val)
+  | "xfer", "in" => need (e.site == "prod0" && e.site2 == "dup#0" && s.inp.cap == 0) "xfer-in"; st .pSend (some e.val)
+  | "close", "in" => need (e.site == "prod0") "close-in"; st .pClose none
+  | "recv", "in" => need (e.site == "dup#0") "recv-in"; st .dRecv (some e.val)
+  | "recvc", "in" => need (e.site == "dup#0") "recvc-in"; st .dRecv none
+  | "send", "dup.cc1" => need (e.site == "dup#0" && s.o1.cap > 0) "send-cc1"; st .dSend1 (some e.val)
+  | "send", "dup.cc2" => need (e.site == "dup#0" && s.o2.cap > 0) "send-cc2"; st .dSend2 (some e.val)
+  | "xfer", "dup.cc1" => need (e.site == "dup#0" && e.site2 == "cons0" && s.o1.cap == 0) "xfer-cc1"; st .c1Recv (some e.val)
+  | "xfer", "dup.cc2" => need (e.site == "dup#0" && e.site2 == "cons1" && s.o2.cap == 0) "xfer-cc2"; st .c2Recv (some e.val)
+  | "recv", "dup.cc1" => need (e.site == "cons0") "recv-cc1"; st .c1Recv (some e.val)
+  | "recv", "dup.cc2" => need (e.site == "cons1") "recv-cc2"; st .c2Recv (some e.val)
+  | "recvc", "dup.cc1" => need (e.site == "cons0") "recvc-cc1"; st .c1Recv none
+  | "recvc", "dup.cc2" => need (e.site == "cons1") "recvc-cc2"; st .c2Recv none
+  | "close", "dup.cc1" => need (e.site == "dup#0") "close-cc1"; st .dClose1 none
+  | "close", "dup.cc2" => need (e.site == "dup#0") "close-cc2"; st .dClose2 none
+  | _, _ => throw s!"unknown-event:{e.kind}:{e.ch}"
+
+-- ---------------------------------------------------------------- joinwg (both forms; also inside pipeline)
+
+/-- goroutine id ↦ forwarder index -/
+abbrev Roles := List (Nat × Nat)
+
+/-- Interprets an event of the join stage.  `mid` is the name of the outer channel. -/
+def joinEv (_c : JoinWG.Cfg) (mid : String) (s : JoinWG.State) (roles : Roles) (e : Ev) :
+    R (Option (JoinWG.Label × Option Nat × Roles)) := do
+  let some' (l : JoinWG.Label) (obs : Option Nat) : R (Option (JoinWG.Label × Option Nat × Roles)) :=
+    pure (some (l, obs, roles))
+  let fwd (g : Nat) : R Nat :=
+    match roles.lookup g with
+    | some i => pure i
+    | none => throw s!"goroutine-{g}-is-not-a-forwarder"
+  if e.ch == mid then
+    match e.kind with
+    | "recv" => need (e.site == "join#0") "recv-outer"; some' .spNext (some e.val)
+    | "recvc" => need (e.site == "join#0") "recvc-outer"; some' .spNext none
+    | _ => pure none
+  else if e.ch == "join.wait" then
+    match e.kind with
+    | "add" => need (e.site == "join#0" && e.val == 1) "wg-add"; some' .spAdd none
+    | "done" => do let i ← fwd e.g; need (e.site == "join#1") "wg-done"; some' (.fDone i) none
+    | "wait" => need (e.site == "join#0") "wg-wait"; some' .spWait none
+    | _ => pure none
+  else if e.ch == "join.out" then
+    match e.kind with
+    | "make" => pure none
+    | "xfer" => do
+      let i ← fwd e.g
+      need (e.site == "join#1" && e.site2 == "cons0") "xfer-out"
+      some' (.cTake i) (some e.val)
+    | "recvc" => need (e.site == "cons0") "recvc-out"; some' .cSeeClose none
+    | "close" => need (e.site == "join#0") "close-out"; some' .spClose none
+    | _ => throw s!"unexpected-on-out:{e.kind}"
+  else if e.kind == "go" && e.site2 == "join#1" then
+    need (e.site == "join#0") "go-forwarder"
+    pure (some (.spGo, none, (e.g2, s.k) :: roles))
+  else
+    match suffixNat "in" e.ch with
+    | some i =>
+      match e.kind with
+      | "send" => need (e.site == s!"prod{i}" && (s.ch i).cap > 0) "send-in"; some' (.pSend i) (some e.val)
+      | "xfer" => do
+        let j ← fwd e.g2
+        need (e.site == s!"prod{i}" && j == i && (s.ch i).cap == 0) "xfer-in"
+        some' (.pSend i) (some e.val)
+      | "close" => need (e.site == s!"prod{i}") "close-in"; some' (.pClose i) none
+      | "recv" => do let j ← fwd e.g; need (j == i) "recv-in-by-wrong-forwarder"; some' (.fRecv i) (some e.val)
+      | "recvc" => do let j ← fwd e.g; need (j == i) "recvc-in-by-wrong-forwarder"; some' (.fRecv i) none
+      | _ => pure none
+    | none => pure none
+
+def joinwgEv (c : JoinWG.Cfg) (sr : JoinWG.State × Roles) (e : Ev) : R ((JoinWG.State × Roles) × Bool) := do
+  let (s, roles) := sr
+  let m := JoinWG.lts c
+  match ← joinEv c "outer" s roles e with
+  | some (l, obs, roles') =>
+    let s' ← doStep m (JoinWG.effect c) s l obs
+    pure ((s', roles'), true)
+  | none =>
+    let st (l : JoinWG.Label) (obs : Option Nat) : R ((JoinWG.State × Roles) × Bool) := do
+      let s' ← doStep m (JoinWG.effect c) s l obs
+      pure ((s', roles), true)
+    match e.kind, e.ch with
+    | "make", "outer" => need (c.chanForm && e.val == c.ocap) "make-outer"; pure (sr, false)
+    | "make", "join.out" => need (e.val == 0) "make-out-is-not-unbuffered"; pure (sr, false)
+    | "make", ch =>
+      match suffixNat "in" ch with
+      | some i => need (i < c.n && e.val == c.cap i) "make-in"; pure (sr, false)
+      | none => throw s!"unknown-make:{ch}"
+    | "go", _ => envGo e ["prod", "oprod", "join#0", "cons0"]; pure (sr, false)
+    | "send", "outer" => need (e.site == "oprod" && c.ocap > 0) "send-outer"; st .oSend (some e.val)
+    | "xfer", "outer" => need (e.site == "oprod" && e.site2 == "join#0" && c.ocap == 0) "xfer-outer"; st .oSend (some e.val)
+    | "close", "outer" => need (e.site == "oprod") "close-outer"; st .oClose none
+    | _, _ => throw s!"unknown-event:{e.kind}:{e.ch}"
+
+-- ---------------------------------------------------------------- joinsel
+
+def joinselEv (c : JoinSelect.Cfg) (s : JoinSelect.State) (e : Ev) : R (JoinSelect.State × Bool) := do
+  let m := JoinSelect.lts c
+  let st (l : JoinSelect.Label) (obs : Option Nat) : R (JoinSelect.State × Bool) := do
+    let s' ← doStep m JoinSelect.effect s l obs
+    pure (s', true)
+  match e.kind, e.ch with
+  | "make", "joinsel.out" => need (e.val == 0) "make-out-is-not-unbuffered"; pure (s, false)
+  | "go", _ => envGo e ["prod", "joinsel#0", "cons0"]; pure (s, false)
+  | "xfer", "joinsel.out" => need (e.site == "joinsel#0" && e.site2 == "cons0") "xfer-out"; st .cTake (some e.val)
+  | "recvc", "joinsel.out" => need (e.site == "cons0") "recvc-out"; st .cSeeClose none
+  | "close", "joinsel.out" => need (e.site == "joinsel#0") "close-out"; st .sClose none
+  | "write", v =>
+    match suffixNat "c" v with
+    | some i => need (e.site == "joinsel#0") "write-ci"; st .sNil (some i)
+    | none => throw s!"unknown-write:{v}"
+  | k, ch =>
+    match suffixNat "in" ch with
+    | some i =>
+      match k with
+      | "make" => need (i < c.n && e.val == c.cap i) "make-in"; pure (s, false)
+      | "send" => need (e.site == s!"prod{i}" && (s.ch i).cap > 0) "send-in"; st (.pSend i) (some e.val)
+      | "xfer" => need (e.site == s!"prod{i}" && e.site2 == "joinsel#0" && (s.ch i).cap == 0) "xfer-in"; st (.pSend i) (some e.val)
+      | "close" => need (e.site == s!"prod{i}") "close-in"; st (.pClose i) none
+      | "recv" => need (e.site == "joinsel#0") "recv-in"; st (.sRecv i) (some e.val)
+      | "recvc" => need (e.site == "joinsel#0") "recvc-in"; st (.sRecv i) none
+      | _ => throw s!"unknown-event:{k}:{ch}"
+    | none => throw s!"unknown-event:{k}:{ch}"
+
+-- ---------------------------------------------------------------- pipeline
+
+def pipelineEv (c : Pipeline.Cfg) (sr : Pipeline.State × Roles) (e : Ev) : R ((Pipeline.State × Roles) × Bool) := do
+  let (s, roles) := sr
+  let m := Pipeline.lts c
+  let st (l : Pipeline.Label) (obs : Option Nat) (roles' : Roles) : R ((Pipeline.State × Roles) × Bool) := do
+    let s' ← doStep m (Pipeline.effect c) s l obs
+    pure ((s', roles'), true)
+  match ← joinEv (Pipeline.jcfg c) "fmap.out" s.j roles e with
+  | some (l, obs, roles') => st (.j l) obs roles'
+  | none =>
+    match e.kind, e.ch with
+    | "make", "b" => need (e.val == c.bcap) "make-b"; pure (sr, false)
+    | "make", "fmap.out" => need (e.val == c.bcap) "make-mid-capacity-is-not-cap(b)"; pure (sr, false)
+    | "make", "join.out" => need (e.val == 0) "make-out-is-not-unbuffered"; pure (sr, false)
+    | "make", ch =>
+      match suffixNat "in" ch with
+      | some i => need (e.site == "fmap#0" && i + 1 == s.created && e.val == c.cap i) "make-in"; pure (sr, false)
+      | none => throw s!"unknown-make:{ch}"
+    | "go", _ => envGo e ["prod", "bprod", "fmap#0", "join#0", "cons0"]; pure (sr, false)
+    | "send", "b" => need (e.site == "bprod" && c.bcap > 0) "send-b"; st .bSend (some e.val) roles
+    | "xfer", "b" => need (e.site == "bprod" && e.site2 == "fmap#0" && c.bcap == 0) "xfer-b"; st .bSend (some e.val) roles
+    | "close", "b" => need (e.site == "bprod") "close-b"; st .bClose none roles
+    | "recv", "b" => need (e.site == "fmap#0") "recv-b"; st .mRecv (some e.val) roles
+    | "recvc", "b" => need (e.site == "fmap#0") "recvc-b"; st .mRecv none roles
+    | "send", "fmap.out" => need (e.site == "fmap#0" && c.bcap > 0) "send-mid"; st .mSend (some e.val) roles
+    | "xfer", "fmap.out" => need (e.site == "fmap#0" && e.site2 == "join#0" && c.bcap == 0) "xfer-mid"; st .mSend (some e.val) roles
+    | "close", "fmap.out" => need (e.site == "fmap#0") "close-mid"; st .mClose none roles
+    | _, _ => throw s!"unknown-event:{e.kind}:{e.ch}"
+
+-- ---------------------------------------------------------------- do
+
+def doEv (c : Do.Cfg) (sr : Do.State × Roles) (e : Ev) : R ((Do.State × Roles) × Bool) := do
+  let (s, roles) := sr
+  let m := Do.lts c
+  let st (l : Do.Label) (roles' : Roles) : R ((Do.State × Roles) × Bool) := do
+    match m.step s l with
+    | some s' => pure ((s', roles'), true)
+    | none => throw "transition-not-enabled-in-model"
+  let worker (g : Nat) : R Nat :=
+    match roles.lookup g with
+    | some i => pure i
+    | none => throw s!"goroutine-{g}-is-not-a-worker"
+  match e.kind, e.ch with
+  | "make", "do.errChan" => need (e.val == 0) "errChan-is-not-unbuffered"; pure (sr, false)
+  | "make", _ => need (e.site == "main" && e.val == 0) "make"; pure (sr, false)
+  | "go", _ =>
+    match suffixNat "do#" e.site2, s.pc with
+    | some i, .spawn k => need (e.site == "main" && i == k) "go-worker-out-of-order"; st .spawn ((e.g2, i) :: roles)
+    | _, _ => throw s!"unexpected-go:{e.site2}"
+  | "xfer", "do.errChan" => do
+    let i ← worker e.g
+    need (e.site2 == "main") "errChan-receiver"
+    need (e.val == (match c.err i with | some x => x | none => 0)) "error-value-sent"
+    st (.xfer i) roles
+  | "xfer", ch =>
+    match suffixNat "rv" ch with
+    | some p => do
+      let a ← worker e.g
+      let b ← worker e.g2
+      need (c.pairs[p]? == some (a, b)) "rendezvous-partners"
+      st (.rv p) roles
+    | none => throw s!"unknown-xfer:{ch}"
+  | "write", v =>
+    match suffixNat "v" v with
+    | some i => do let j ← worker e.g; need (i == j) "write-by-wrong-worker"; st (.wr i) roles
+    | none => throw s!"unknown-write:{v}"
+  | "read", _ => need (e.site == "main") "read"; st .ret roles
+  | _, _ => throw s!"unknown-event:{e.kind}:{e.ch}"
+
+-- ---------------------------------------------------------------- replay loop
+
+def replay {σ : Type} (f : σ → Ev → R (σ × Bool)) (fin : σ → Bool) (s0 : σ) (evs : List Ev) : String :=
+  let rec go (s : σ) (evs : List Ev) (idx steps skipped : Nat) : String :=
+    match evs with
+    | [] => if fin s then s!"model=ok steps={steps} skipped={skipped}" else s!"model=reject at={idx} why=end-state-not-final"
+    | e :: rest =>
+      if e.kind == "panic" then s!"model=reject at={idx} why=implementation-panicked:{e.ch}" else
+      match f s e with
+      | .ok (s', true) => go s' rest (idx + 1) (steps + 1) skipped
+      | .ok (s', false) => go s' rest (idx + 1) steps (skipped + 1)
+      | .error msg => s!"model=reject at={idx} why={msg}:event={e.kind}:{e.site}:{e.ch}:{e.val}"
+  go s0 evs 0 0 0
+
+def mkFun {α : Type} (l : List α) (d : α) : Nat → α := fun i => match l[i]? with
+  | some x => x
+  | none => d
+
+def runSys (sys : String) (cfg : SExp) (evs : List Ev) : String :=
+  match sys with
+  | "do" =>
+    match parseDoCfg cfg with
+    | some d =>
+      let c : Do.Cfg := { n := d.n, val := mkFun d.vals 0,
+                          err := fun i => match d.errs[i]? with
+                            | some 0 => none
+                            | some e => some e
+                            | none => none,
+                          pairs := d.pairs }
+      let fin (sr : Do.State × Roles) : Bool :=
+        sr.1.pc == .done &&
+        (match sr.1.result with
+         | some (vs, e) => vs == d.vals.map some &&
+             (match e with
+              | none => d.errs.all (· == 0)
+              | some x => x != 0 && d.errs.contains x)
+         | none => false)
+      replay (doEv c) fin (Do.init c, []) evs
+    | none => "bad-op"
+  | _ =>
+    match parseChanCfg cfg with
+    | none => "bad-op"
+    | some cc =>
+      let n := cc.ins.length
+      let items := itemsOf cc.ins
+      let caps := capOf cc.ins
+      match sys with
+      | "fmap" =>
+        if n != 1 then "bad-op" else
+        let c : FmapChan.Cfg := { items := items 0, cap := caps 0, f := userF }
+        replay (fmapEv c) (fun s => s.seen && s.pc == .done && s.got == (items 0).map userF) (FmapChan.init c) evs
+      | "dup" =>
+        if n != 1 then "bad-op" else
+        let c : Dup.Cfg := { items := items 0, cap := caps 0 }
+        replay (dupEv c) (fun s => s.seen1 && s.seen2 && s.pc == .done && s.got1 == items 0 && s.got2 == items 0)
+          (Dup.init c) evs
+      | "joinwg-chan" =>
+        let c : JoinWG.Cfg := { n := n, items := items, cap := caps, chanForm := true, ocap := cc.ocap }
+        replay (joinwgEv c) (fun sr => sr.1.seen && sr.1.pc == .fin &&
+          (List.range n).all (fun i => gotOf sr.1.got i == items i && sr.1.st i == .finished)) (JoinWG.init c, []) evs
+      | "joinwg-slice" =>
+        let c : JoinWG.Cfg := { n := n, items := items, cap := caps, chanForm := false, ocap := 0 }
+        replay (joinwgEv c) (fun sr => sr.1.seen && sr.1.pc == .fin &&
+          (List.range n).all (fun i => gotOf sr.1.got i == items i && sr.1.st i == .finished)) (JoinWG.init c, []) evs
+      | "joinsel" =>
+        let c : JoinSelect.Cfg := { n := n, items := items, cap := caps }
+        replay (joinselEv c) (fun s => s.seen && s.pc == .done &&
+          (List.range n).all (fun i => gotOf s.got i == items i)) (JoinSelect.init c) evs
+      | "pipeline" =>
+        let c : Pipeline.Cfg := { n := n, bcap := cc.ocap, items := items, cap := caps }
+        replay (pipelineEv c) (fun sr => sr.1.j.seen && sr.1.j.pc == .fin && sr.1.mpc == .done &&
+          (List.range n).all (fun i => gotOf sr.1.j.got i == items i && sr.1.j.st i == .finished)) (Pipeline.init c, []) evs
+      | _ => "bad-op"
+
+def run (_s : DState) (name : String) (args : List SExp) : Option String :=
+  if name != "conc" then none else
+  match args with
+  | .atom sys :: cfg :: evs =>
+    match evs.mapM parseEv with
+    | some es => some (runSys sys cfg es)
+    | none => some "bad-op"
+  | _ => some "bad-op"
 
 end OpsConc
